@@ -27,7 +27,12 @@ Params g_params;
 static std::vector<uint8_t> g_cur;       // bytes of the case being executed
 static std::string g_crashfile;          // where to dump g_cur if the process dies
 
+static std::string g_crashdesc, g_crashmsg;
+static CaseInfo* g_cur_ci = nullptr;     // for printing the partial description if the case crashes
+static bool g_print_desc_on_crash = false;
 static void dump_cur() {
+  if (g_print_desc_on_crash && g_cur_ci) { printf("case (crashed; description so far): %s\n", g_cur_ci->desc.c_str()); fflush(stdout); }
+  if (!g_crashdesc.empty() && g_cur_ci) { std::string t = "property " + std::string(g_prop.id) + "\nfailure: " + g_crashmsg + "\ncase (crashes; description up to the crashing call): " + g_cur_ci->desc + "\n"; FILE* f = fopen(g_crashdesc.c_str(), "w"); if (f) { fwrite(t.data(), 1, t.size(), f); fclose(f); } }
   if (g_crashfile.empty()) return;
   int fd = open(g_crashfile.c_str(), O_WRONLY | O_CREAT | O_TRUNC, 0644);
   if (fd >= 0) { ssize_t r = write(fd, g_cur.data(), g_cur.size()); (void)r; close(fd); }
@@ -59,9 +64,10 @@ static RunOut run_case(const std::vector<uint8_t>& bytes, bool want_desc) {
   RunOut o; o.ci.want_desc = want_desc;
   g_cur = bytes;
   ByteSource in(g_cur.data(), g_cur.size());
+  g_cur_ci = &o.ci;
   try { g_prop.check(in, o.ci); }
   catch (Fail& f) { o.failed = true; o.msg = f.msg; }
-  o.ci.hash = in.h;
+  o.ci.hash = in.h; g_cur_ci = nullptr;
   return o;
 }
 
@@ -251,7 +257,7 @@ static int replay(const std::string& file, bool quiet) {
     // decoded form (in-process; if this crashes the crash itself is the answer)
     fflush(stdout);
     pid_t pid = fork();
-    if (pid == 0) { RunOut o = run_case(bytes, true); printf("case: scale=%u %s\n", bytes.empty() ? 0 : bytes[0], o.ci.desc.c_str()); fflush(stdout); _exit(0); }
+    if (pid == 0) { g_print_desc_on_crash = true; RunOut o = run_case(bytes, true); printf("case: scale=%u %s\n", bytes.empty() ? 0 : bytes[0], o.ci.desc.c_str()); fflush(stdout); _exit(0); }
     int st; waitpid(pid, &st, 0);
   }
   if (fails == 3) { if (!quiet) printf("replay: property %s FAILS on %s (3/3)\n", g_prop.id, file.c_str()); return 1; }
@@ -338,6 +344,7 @@ static int pbt(uint64_t seed, uint64_t ncases, unsigned W, unsigned max_scale, c
     fflush(stdout);
     { pid_t pid = fork();
       if (pid == 0) { int dn = open("/dev/null", O_WRONLY); if (dn >= 0) dup2(dn, 2);
+        g_crashdesc = rundir + "/replay.txt"; g_crashmsg = smsg;
         RunOut o = run_case(small, true);
         std::string t = "property " + std::string(g_prop.id) + "\nfailure: " + smsg + "\ncase: scale=" + std::to_string(small.empty() ? 0 : small[0]) + " " + o.ci.desc + "\n";
         write_file(rundir + "/replay.txt", t.data(), t.size()); _exit(0); }
